@@ -50,8 +50,8 @@ type c17Case struct {
 	MasterMarked  bool     `json:"master_marked"`
 	Reps          []c17Rep `json:"replicas"`
 	Perm          int      `json:"map_order"`
-	Advance       []int    `json:"advance_s"`  // seconds before pass 2,3,...; len+1 passes
-	Handover      int      `json:"handover_at"` // pass index before which a fresh manager takes over (0 = never)
+	Advance       []int    `json:"advance_s"`         // seconds before pass 2,3,...; len+1 passes
+	Handover      int      `json:"handover_at"`       // pass index before which a fresh manager takes over (0 = never)
 	OldShutdown   bool     `json:"old_last_shutdown"` // the limiter key exists and is older than the interval
 }
 
